@@ -128,6 +128,7 @@ fn table_state(links: Vec<LinkS>) -> Spec {
             order(ex, inst, 1, StS::Oif),
             order(ex, inst, 11, StS::Open(meta(12, 999_999, 0))),
             order(ex, inst, 111, StS::Open(meta(13, 1_000_000, 5_000))), // partially filled
+            order(ex, inst, 6, StS::Open(meta(16, 2_000_000, 25_000))), // filled ABOVE the quantity: still tracked, still cancellable
             order(ex, inst, 4, StS::Cif(None)),
             order(ex, inst, 5, StS::Cif(Some(meta(15, 1_000_001, 0)))),
         ]
@@ -145,6 +146,7 @@ fn table_state(links: Vec<LinkS>) -> Spec {
         l1,
     };
     Spec {
+        exset: 1,
         trading: false,
         links,
         instruments: vec![
@@ -161,10 +163,10 @@ fn table_state(links: Vec<LinkS>) -> Spec {
                Some(L1S { t: 1_000, bid: Some((1_010_000, 3_000)), ask: Some((1_030_000, 1_000)) })),
             // exchange 1: the same asset names (different asset indices), a future
             mk(1, "a", "b", 2, 100, "a", vec![order(1, 3, 1, StS::Open(meta(31, 2, 0)))],
-               Some(PosS { buy: false, qty: 2_500, qty_max: 2_500 }), Some((3, 505_000)), None),
+               Some(PosS { buy: false, qty: -2_500, qty_max: 2_500 }), Some((3, 505_000)), None), // negative-size position
             mk(1, "c", "a", 0, 0, "", vec![], None, Some((4, 20_000)), None), // price but no position
             // exchange 2
-            mk(2, "b", "c", 1, 1_000_000, "b", all_states(2, 5), Some(PosS { buy: true, qty: 100, qty_max: 30_000 }),
+            mk(2, "b", "c", 1, 1_000_000, "b", all_states(2, 5), Some(PosS { buy: true, qty: 0, qty_max: 30_000 }), // zero-size position
                Some((9, 77_500)), None),
         ],
         steps: vec![],
@@ -241,7 +243,7 @@ fn gen_state(r: &mut Rng, adversarial: bool) -> Spec {
             used.push(cid);
             let st = match r.below(5) {
                 0 => StS::Oif,
-                1 => StS::Open(meta(100 + cid, pick_time(r), 0)),
+                1 => StS::Open(meta(100 + cid, pick_time(r), *r.pick(&[0, 0, 20_001, 1_000_000]))),
                 2 => StS::Open(meta(100 + cid, pick_time(r), 5_000)),
                 3 => StS::Cif(None),
                 _ => StS::Cif(Some(meta(100 + cid, pick_time(r), 0))),
@@ -256,8 +258,9 @@ fn gen_state(r: &mut Rng, adversarial: bool) -> Spec {
             pos: match r.below(3) {
                 0 => None,
                 k => {
-                    let q = 2_500 * (1 + r.below(8) as i64);
-                    Some(PosS { buy: k == 1, qty: q, qty_max: q + 2_500 * r.below(3) as i64 })
+                    // zero-size and (adversarial) negative-size positions included
+                    let q = if adversarial && r.chance(1, 8) { -2_500 } else { 2_500 * r.below(9) as i64 };
+                    Some(PosS { buy: k == 1, qty: q, qty_max: q.abs() + 2_500 * (1 + r.below(3) as i64) })
                 }
             },
             last: if r.chance(2, 3) { Some((pick_time(r), 2500 * (1 + r.below(400) as i64))) } else { None },
@@ -277,7 +280,7 @@ fn gen_state(r: &mut Rng, adversarial: bool) -> Spec {
             }
         })
         .collect();
-    Spec { trading: adversarial && r.chance(1, 3), links, instruments, steps: vec![] }
+    Spec { exset: r.below(3) as u8, trading: adversarial && r.chance(1, 3), links, instruments, steps: vec![] }
 }
 
 fn gen_filter(r: &mut Rng, lay: &[(usize, usize, usize)], n_ex: usize, adversarial: bool) -> FilterS {
